@@ -1,6 +1,7 @@
 package c17
 
 import (
+	"bytes"
 	"encoding/binary"
 	"fmt"
 	"reflect"
@@ -64,7 +65,8 @@ func safeNDDecode(data, key []byte) (out msg.NatHoleSid, err error, panicked any
 			panicked = r
 		}
 	}()
-	err = nathole.DecodeMessageInto(data, key, &out)
+	// the decoder deciphers in place: every call gets its own copy of the datagram
+	err = nathole.DecodeMessageInto(append([]byte(nil), data...), key, &out)
 	return
 }
 
@@ -92,6 +94,24 @@ func runND(c NDCase) error {
 				}
 				if !reflect.DeepEqual(&out, in) {
 					return fmt.Errorf("datagram round trip: sent %+v, decoded %+v", in, out)
+				}
+				// the released format: the control frame, enciphered with the key - whatever the key (also the empty
+				// one), so that builds of the same protocol version read each other's datagrams
+				var frame bytes.Buffer
+				if e := msg.WriteMsg(&frame, in); e != nil {
+					return fx.Inconclusive("WriteMsg: %v", e)
+				}
+				plain, e := crypto.Decode(append([]byte(nil), data...), key)
+				if e != nil || !bytes.Equal(plain, frame.Bytes()) {
+					return fmt.Errorf("key %q: the datagram made by EncodeMessage does not decipher to the control frame (err %v, %d bytes, want %d)", c.Key, e, len(plain), frame.Len())
+				}
+				ref, e := crypto.Encode(frame.Bytes(), key)
+				if e != nil {
+					return fx.Inconclusive("crypto.Encode: %v", e)
+				}
+				out2, err2, p2 := safeNDDecode(ref, key)
+				if p2 != nil || err2 != nil || !reflect.DeepEqual(&out2, in) {
+					return fmt.Errorf("key %q: a datagram in the released format (control frame enciphered with the key) is not read back: err %v panic %v got %+v want %+v", c.Key, err2, p2, out2, in)
 				}
 			}
 			return nil
